@@ -927,7 +927,7 @@ func opensslInterop(out *sim.WorkerOut) []*sim.Case {
 	}
 	var bad []*sim.Case
 	fail := func(v *sim.Violation, plen int, secret string) {
-		bad = append(bad, &sim.Case{Property: "C09", Engine: "C", Params: map[string]int{"scen": 0, "plen": plen, "slen": len(secret), "openssl": 1}, Violation: v})
+		bad = append(bad, &sim.Case{Property: "C09", Engine: "C", Params: map[string]int{"scen": 0, "plen": plen, "slen": len(secret), "openssl": 1, "extra_table": 1}, Violation: v})
 	}
 	run := func(in []byte, args ...string) ([]byte, error) {
 		cmd := osexec.Command(bin, args...)
